@@ -29,7 +29,10 @@ import (
 	"rcproxy/core/pkg/hashkit"
 )
 
-type simView struct{ names []string }
+type simView struct {
+	names     []string
+	noVariant bool // set on the view that runs the uncut variant of a failing trace (C08)
+}
 
 func newSimView() *simView {
 	v := &simView{}
@@ -1379,7 +1382,77 @@ func (v *simView) run(line string) (out string, oracle string, tags []string, mo
 		}
 	}
 	r.finish()
+	if v != nil && !v.noVariant && r.tags["request-cut-across-reads"] && len(r.fails) > 0 && !strings.Contains(strings.Join(r.fails, "|"), "C08:") {
+		// C08, differentially: the same trace with every cut request delivered in ONE read instead. If that one is served
+		// without complaint, what went wrong depends on how the bytes were cut into reads
+		if uncut, changed := uncutLine(parts[2]); changed {
+			v2 := &simView{noVariant: true}
+			if _, o2, _, _ := v2.run("sim " + parts[0] + "|" + parts[1] + "|" + uncut); o2 == "" {
+				if len(r.fails) >= 6 {
+					r.fails = r.fails[:5]
+				}
+				r.fail("C08: the same requests are served correctly when every request arrives in one read, and not when they are cut across reads at the points of this trace (%s)", clipStr(r.fails[0], 200))
+			}
+		}
+	}
 	return r.result()
+}
+
+// uncutLine: every client chunk that ends inside a request is completed with the bytes of that client's next chunk
+// (which disappears); the order of everything else stays
+func uncutLine(events string) (string, bool) {
+	evs := strings.Split(events, ";")
+	pend := map[string][]byte{} // client -> bytes of an unfinished request
+	open := map[string]int{}    // client -> index of the event holding the unfinished request
+	changed := false
+	out := make([]string, len(evs))
+	copy(out, evs)
+	for i, ev := range evs {
+		f := strings.Fields(ev)
+		if len(f) < 3 || f[0] != "c" {
+			continue
+		}
+		d, err := unhx(f[2])
+		if err != nil {
+			continue
+		}
+		ci := f[1]
+		if j, ok := open[ci]; ok {
+			// continuation: move these bytes into the event that holds the beginning
+			fj := strings.Fields(out[j])
+			dj, _ := unhx(fj[2])
+			out[j] = fmt.Sprintf(" c %s %s ", ci, hx(append(dj, d...)))
+			out[i] = ""
+			changed = true
+			delete(open, ci)
+			pend[ci] = append(pend[ci], d...)
+			i = j
+		} else {
+			pend[ci] = append(pend[ci], d...)
+		}
+		// is the client's stream inside a request now?
+		rest := pend[ci]
+		for len(rest) > 0 {
+			_, n, perr := strictParse(rest)
+			if perr != nil {
+				break
+			}
+			rest = rest[n:]
+		}
+		pend[ci] = rest
+		if len(rest) > 0 {
+			if _, _, perr := strictParse(rest); perr == errIncomplete {
+				open[ci] = i
+			}
+		}
+	}
+	var keep []string
+	for _, e := range out {
+		if strings.TrimSpace(e) != "" {
+			keep = append(keep, e)
+		}
+	}
+	return strings.Join(keep, ";"), changed
 }
 
 func (r *simRun) result() (out string, oracle string, tags []string, modelLine string) {
